@@ -56,7 +56,7 @@ F(n, k) == Fld(n, k, 0, 0, FALSE)
 
 Bases ==
   [ b1 |-> << C("struct", "a", "foo", "Foo", <<F("x", "int"), F("y", "string")>>, NoRes, FALSE),
-              C("struct", "a", "bar", "Bar", <<F("m", "nat"), Fld("z", "mint", 1, 0, FALSE)>>, NoRes, FALSE),
+              C("func", "a", "put", "", <<F("m", "nat"), Fld("z", "mint", 1, 0, FALSE)>>, [k |-> "bool", a |-> 0], FALSE),
               C("func", "a", "get", "", <<F("id", "int")>>, [k |-> "ref", a |-> 1], FALSE) >>,
     b2 |-> << C("variant", "", "shapeCircle", "Shape", <<F("r", "int")>>, NoRes, FALSE),
               C("variant", "", "shapeSquare", "Shape", <<F("s", "long")>>, NoRes, FALSE),
